@@ -437,4 +437,4 @@ def inventory(ctx, rep):
     rep.check("R4.3", "coverage:readers", len([n for n in inv.reach if n.endswith("binrw::binread::BinRead>::read_options")]) >= 135,
               "expected at least 135 generated/hand-written BinRead impls on the decode path (found %d)" % len([n for n in inv.reach if n.endswith("binrw::binread::BinRead>::read_options")]),
               None, sample={"functions_reachable": len(inv.reach), "sites": len(sites)})
-    rep.floor("R4.3", 150)
+    rep.floor("R4.3", 120)
